@@ -21,13 +21,13 @@ SCENE_BIAS = {
     "kti": ["kick_repeat", "kick_ranks", "topic_lock", "invite_ranks", "invite_ranks", "invite_key", "invite_recreate", "invite_ban", "limit_invite", "halfop_mode"],
     "mode": ["ranks_ladder", "halfop_mode", "topic_lock", "moderated_prefix", "ban_case", "invite_key", "limit_invite", "kick_ranks"],
     "nick": ["voice_rename", "wallops_rename", "case_twins", "rename_masks", "pre_rename", "ban_case"],
-    "join": ["invite_key", "invite_recreate", "invite_ban", "limit_invite", "quota_invisible", "rejoin_list", "ban_case", "case_twins"],
+    "join": ["pre_bans", "pre_bans", "invite_key", "invite_recreate", "invite_ban", "limit_invite", "quota_invisible", "rejoin_list", "ban_case", "case_twins"],
     "member": ["rejoin_list", "kick_repeat", "voice_rename", "kick_ranks", "pre_rename", "ranks_ladder"],
-    "chanlife": ["invite_recreate", "pre_rename", "kick_repeat", "rejoin_list", "kick_ranks"],
+    "chanlife": ["pre_bans", "invite_recreate", "pre_rename", "kick_repeat", "rejoin_list", "kick_ranks"],
     "secret": ["secret_whois", "quota_invisible", "rename_masks", "case_twins"],
     "oper": ["oper_cycle", "wallops_rename", "case_twins"],
     "stats": ["oper_cycle", "quota_invisible", "wallops_rename"],
-    "endings": ["wallops_rename", "oper_cycle", "invite_recreate", "pre_rename"],
+    "endings": ["wallops_rename", "oper_cycle", "invite_recreate", "pre_rename", "late_cap", "late_cap"],
     "msg": ["flood_targets", "voice_rename", "moderated_prefix", "case_twins", "ban_case"],
     "speak": ["moderated_prefix", "ban_case", "case_twins", "voice_rename", "flood_targets"],
     "general": ["kick_repeat", "halfop_mode", "kick_ranks"],
@@ -144,19 +144,29 @@ class Gen:
             self.cfg_users["reg"] = None if pw == "-" else "regpw"
         # preconfigured channels
         self.pre_chans = []
+        self.pre_ranked = []
+        self.pre_masks = []
         if r.random() < 0.4:
             name = r.choice(["#pre", "#a", "&c"])
             topic = r.choice(["-", "+" + esc("configured topic")])
             flags = "".join(c for c in "imstn" if r.random() < 0.25)
             key = r.choice(["-", "-", "+k1"])
             limit = r.choice(["-", "-", "+1", "+2"])
-            def sub(pool, p=0.3):
-                return esc_list([x for x in pool if r.random() < p])
+            def pick(pool, p=0.3):
+                return [x for x in pool if r.random() < p]
+            pb = 0.35 if self.profile in ("join", "chanlife", "speak") else 0.15
+            bans, excs, invs = pick(MASKS[:6], pb), pick(MASKS[:6], 0.1), pick(MASKS[:6], 0.1)
+            ranks = [pick(NICKS, 0.2), pick(NICKS, 0.15), pick(NICKS, 0.25), pick(NICKS, 0.2), pick(NICKS, 0.25)]
+            if r.random() < 0.3:
+                # exactly one configured rank list
+                keep = r.randrange(5)
+                ranks = [(x or [r.choice(NICKS)]) if i == keep else [] for i, x in enumerate(ranks)]
             lines.append("cfg chan %s %s %s %s %s %s %s %s %s %s %s %s %s" % (
                 esc(name), topic, esc(flags), key, limit,
-                sub(MASKS[:6], 0.15), sub(MASKS[:6], 0.1), sub(MASKS[:6], 0.1),
-                sub(NICKS, 0.2), sub(NICKS, 0.15), sub(NICKS, 0.25), sub(NICKS, 0.2), sub(NICKS, 0.25)))
+                esc_list(bans), esc_list(excs), esc_list(invs), *[esc_list(x) for x in ranks]))
             self.pre_chans.append(name)
+            self.pre_ranked = sorted({n for lst in ranks[:4] for n in lst})
+            self.pre_masks = bans + excs
         return lines
 
     # ------------------------------------------------------------------ helpers
@@ -482,7 +492,7 @@ class Gen:
         k = r.choice(["invite_key", "invite_recreate", "invite_ban", "ranks_ladder", "halfop_mode", "quota_invisible",
                       "voice_rename", "wallops_rename", "flood_targets", "limit_invite", "case_twins", "kick_ranks",
                       "secret_whois", "oper_cycle", "moderated_prefix", "ban_case", "rejoin_list", "topic_lock",
-                      "rename_masks", "kick_repeat", "pre_rename", "invite_ranks"])
+                      "rename_masks", "kick_repeat", "pre_rename", "invite_ranks", "late_cap", "pre_bans"])
         bias = SCENE_BIAS.get(self.profile)
         if bias and r.random() < 0.5:
             k = r.choice(bias)
@@ -610,6 +620,40 @@ class Gen:
                 L(a, "MODE %s -o %s" % (ch, na)); L(a, "INVITE %s %s" % (tgt, ch))
             if c3: L(c3, "JOIN " + ch)
             L(b, "MODE %s -%s %s" % (ch, r.choice("aqo"), nb)); L(b, "INVITE %s %s" % (tgt, ch))
+        elif k == "pre_bans":
+            # a preconfigured channel's configured lists are ordinary lists: run-time +b/-b/+e/+I changes add to and
+            # remove from them, nothing else; somebody holding a configured rank does the changes
+            if not self.pre_chans:
+                return
+            pch = self.pre_chans[0]
+            ranked = [x for x in self.pre_ranked if x] or ["alice"]
+            opn = r.choice(ranked)
+            holder = [c for c, x in self.conns.items() if x["live"] and x.get("nick") == opn]
+            if holder:
+                o = holder[0]
+            else:
+                o = self.new_conn()
+                if o is None:
+                    return
+                self.register(o, opn)
+            L(o, "JOIN " + pch + r.choice(["", " k1"])); L(o, "MODE %s b" % pch)
+            m = r.choice(["zz!*@*", "*!*@10.9.9.9", nb + "!*@*"] + self.pre_masks[:2])
+            L(o, "MODE %s +b %s" % (pch, m)); L(o, "MODE %s -b %s" % (pch, m))
+            if r.random() < 0.5: L(o, "MODE %s -b nobody!*@*" % pch)
+            L(o, "MODE %s b" % pch); L(b, "JOIN " + pch + r.choice(["", " k1"])); L(a, "JOIN " + pch + r.choice(["", " k1"]))
+            L(b, "PRIVMSG %s :may I" % pch)
+            L(o, "MODE %s +e %s" % (pch, m)); L(o, "MODE %s -e %s" % (pch, m)); L(b, "JOIN " + pch)
+        elif k == "late_cap":
+            # capability negotiation re-opened AFTER registration and closed again: nothing about the session changes
+            L(b, r.choice(["CAP REQ :multi-prefix", "CAP LS 302", "CAP LS", "CAP REQ :foo", "CAP LIST"]))
+            if r.random() < 0.5: L(b, "JOIN " + ch)
+            L(b, "CAP END"); L(b, "PRIVMSG %s :still me" % na); L(a, "WHOIS " + nb)
+            how = r.choice(["quit", "eof", "none", "reset"])
+            if how == "quit":
+                L(b, "QUIT :bye"); self.conns[b]["live"] = False
+            elif how in ("eof", "reset"):
+                self.ops.append("%s %d" % (how, b)); self.conns[b]["live"] = False
+            L(a, "WHOIS " + nb); L(a, "NAMES " + ch); L(a, "LUSERS")
         elif k == "topic_lock":
             L(a, "JOIN " + ch); L(b, "JOIN " + ch); L(a, "MODE %s +t" % ch); L(b, "TOPIC %s :by member" % ch)
             L(a, "MODE %s +k first" % ch); L(a, "MODE %s +k second" % ch); L(a, "MODE " + ch)
